@@ -484,12 +484,12 @@ fn worker_case(rng: &mut Rng, out: &mut Sink, tag: &str) {
             }
             Some(WorkerEvent::Push { .. }) => Some(Resume::Go),
             Some(WorkerEvent::Submit { wait, .. }) => {
-                let pick = rng.below(40);
+                let pick = rng.below(400);
                 if pick == 0 && !big {
                     sr = "err";
                     acts.push("e:err".into());
                     Some(Resume::Submit(Err(16))) // EBUSY
-                } else if pick < 4 {
+                } else if pick < 30 {
                     sr = "eintr";
                     acts.push("e:eintr".into());
                     Some(Resume::Submit(Err(EINTR)))
@@ -588,9 +588,17 @@ fn worker_case(rng: &mut Rng, out: &mut Sink, tag: &str) {
                 }
                 let attempts = cmds[id].hist.len();
                 if attempts > 0 {
+                    if retries == 0 {
+                        out.fail(format!("C14 iopool ({tag}): command {id} reissued after attempts {:?} although its result is decided", cmds[id].hist));
+                        return;
+                    }
                     retries -= 1;
                     out.count("w_retry_push");
                 } else {
+                    if chan_len == 0 {
+                        out.fail(format!("C14 iopool ({tag}): command {id} accepted twice"));
+                        return;
+                    }
                     chan_len -= 1;
                 }
                 cmds[id].pushes += 1;
